@@ -63,9 +63,23 @@ def build_harness():
     log(f"[build] harness up to date ({dt:.1f}s)")
 
 
+class Hang(Exception):
+    """a call into opaque-ke did not return (harness watchdog, exit code 3)"""
+    def __init__(self, replay, context):
+        Exception.__init__(self, context)
+        self.replay, self.context = replay, context
+
+
+_prop = "C00"
+
+
 def harness(args, timeout=3600):
     build_harness()
-    rc, out, dt = sh([HBIN] + args, timeout)
+    rc, out, dt = sh([HBIN] + args, timeout, env={"VERIF_REPLAY_DIR": REPLAYS, "VERIF_PROP": _prop})
+    if rc == 3:
+        import re
+        m = re.search(r"HANG replay=(\S+) context=(.*)", out)
+        raise Hang(m.group(1) if m else "", m.group(2) if m else out[-500:])
     return rc, out, dt
 
 
@@ -436,11 +450,22 @@ def main(argv):
             return props.selftest(seed)
         if replay:
             return props.replay_file(cmd, replay)
+        global _prop
+        _prop = cmd
         fn = getattr(props, "check_" + cmd, None)
         if fn is None:
             log(f"unknown property {cmd}")
             return 2
         return fn(tier, seed)
+    except Hang as h:
+        # non-termination of the code under test is a finding of C12; for every other property the check
+        # cannot proceed (tool error), and C12 reports it
+        if cmd == "C12":
+            print(f"  nontermination: a call into opaque-ke did not return within the watchdog limit: {h.context[:300]}")
+            print(f"VIOLATION property=C12 replay={h.replay}")
+            return 1
+        log(f"TOOL-ERROR: the implementation did not return from a call (see ./check C12): {h.context[:300]}")
+        return 2
     except ToolError as e:
         log("TOOL-ERROR: " + str(e))
         return 2
